@@ -155,3 +155,48 @@ Proof.
     destruct (round_pos_rational num den) as [[m0 e0]|] eqn:Er; [|discriminate]. intros [= <- <-].
     right. cbn [fst snd]. exists m0. split; [reflexivity|]. exact (round_nearest_even num den m0 e0 Hnum Hden Er).
 Qed.
+
+(* ---------- acceptance: a literal that denotes a finite float64 is never refused ---------- *)
+Definition dec_is_finite_float64 (D e10 : Z) : Prop :=
+  D = 0 \/ exists M E, 0 < M < two53 /\ -1074 <= E /\
+                       is_dyadic (fst (dec_fraction D e10)) (snd (dec_fraction D e10)) M E /\
+                       M * Pk E < 2 ^ 1024 * Mk E.
+
+Lemma finite_is_float64 D e10 : dec_is_finite_float64 D e10 -> dec_is_float64 D e10.
+Proof. intros [H|(M & E & H1 & H2 & H3 & _)]; [left; exact H|right; exists M, E; auto]. Qed.
+
+Lemma pow10_310 : 2 ^ 1024 < 10 ^ 310.
+Proof. vm_compute. reflexivity. Qed.
+
+Theorem parse_float_accepts t neg D e10 :
+  dec_parts t = Some (neg, D, e10) -> dec_is_finite_float64 D e10 ->
+  exists m e, parse_float t = PFVal (FFin m e).
+Proof.
+  intros Hp Hf. pose proof (dec_parts_nonneg _ _ _ _ Hp) as HD0. unfold parse_float. rewrite Hp.
+  destruct (D =? 0) eqn:E0; [exists 0, 0; reflexivity|]. apply Z.eqb_neq in E0.
+  destruct Hf as [->|(M & E & HM & HE & Hdy & Hfin)]; [contradiction|]. assert (HD : 0 < D) by lia.
+  destruct (310 <=? e10) eqn:E310.
+  - exfalso. apply Z.leb_le in E310. unfold dec_fraction in Hdy, Hfin. destruct (0 <=? e10) eqn:Ee; [|apply Z.leb_gt in Ee; lia].
+    cbn [fst snd] in Hdy. unfold is_dyadic in Hdy. rewrite Z.mul_1_r in Hdy. pose proof (Mk_pos E) as HME.
+    assert (H1 : D * 10 ^ e10 < 2 ^ 1024).
+    { apply Z.mul_lt_mono_pos_r with (Mk E); [exact HME|]. rewrite Hdy. exact Hfin. }
+    assert (H2 : 10 ^ 310 <= 10 ^ e10) by (apply Z.pow_le_mono_r; lia).
+    assert (H3 : 10 ^ e10 <= D * 10 ^ e10) by (assert (0 < 10 ^ e10) by (apply Z.pow_pos_nonneg; lia); nia).
+    pose proof pow10_310. lia.
+  - destruct (e10 + (Z.log2 D / 3 + 1) <=? -330); [exists 0, 0; reflexivity|].
+    pose proof (dec_fraction_Q D e10) as Hq. destruct (dec_fraction D e10) as [num den]. cbn [fst snd] in Hdy. destruct Hq as [Hden _].
+    assert (Hnum : 0 < num).
+    { unfold is_dyadic in Hdy. pose proof (Pk_pos E). pose proof (Mk_pos E).
+      assert (0 < M * Pk E * den) by (apply Z.mul_pos_pos; [apply Z.mul_pos_pos|]; lia). nia. }
+    destruct (round_accepts_dyadic num den M E Hnum Hden HM HE Hdy Hfin) as (m & e & ->).
+    eexists _, _. reflexivity.
+Qed.
+
+(* both together: the literal is accepted and converted to exactly the number it denotes *)
+Theorem parse_float_value t neg D e10 :
+  dec_parts t = Some (neg, D, e10) -> dec_is_finite_float64 D e10 ->
+  exists m e, parse_float t = PFVal (FFin m e) /\ (Qval m e == Qdec neg D e10)%Q.
+Proof.
+  intros Hp Hf. destruct (parse_float_accepts t neg D e10 Hp Hf) as (m & e & H). exists m, e. split; [exact H|].
+  exact (parse_float_exact t neg D e10 m e Hp (finite_is_float64 D e10 Hf) H).
+Qed.
